@@ -52,10 +52,75 @@ type Inst struct {
 	S   *u.Stump
 	P   *u.Pollard
 	M   *u.MapPollard
+	ar  arena
+}
+
+// arena hands out the argument slices of successive library calls from the SAME two buffers, as a
+// caller that recycles its scratch memory does: the arguments of one call are overwritten by those of
+// the next. A library that keeps a reference to an argument slice (a memo keyed on the caller's slice,
+// a cached proof pointing into it) then works on foreign data. nil stays nil. The slices of one call
+// are consecutive regions buf[i:j], buf[j:k] of the buffer with their capacity NOT clipped (what a
+// plain re-slice gives): a library that appends to an argument writes over the next argument.
+type arena struct {
+	off  bool // C12: calls are issued from several goroutines at once; every argument is a fresh copy instead
+	h    []Hash
+	u    []uint64
+	l    []u.Leaf
+	hOff int
+	uOff int
+}
+
+// next starts the argument set of a new call.
+func (a *arena) next() { a.hOff, a.uOff = 0, 0 }
+
+func (a *arena) hashes(src []Hash) []Hash {
+	if src == nil || a.off {
+		return cloneHashes(src)
+	}
+	if a.hOff+len(src) > len(a.h) {
+		a.h = append(a.h[:a.hOff:a.hOff], make([]Hash, 2*len(src)+16)...)
+	}
+	out := a.h[a.hOff : a.hOff+len(src)]
+	a.hOff += len(src)
+	copy(out, src)
+	return out
+}
+
+func (a *arena) u64s(src []uint64) []uint64 {
+	if src == nil || a.off {
+		return cloneU64(src)
+	}
+	if a.uOff+len(src) > len(a.u) {
+		a.u = append(a.u[:a.uOff:a.uOff], make([]uint64, 2*len(src)+16)...)
+	}
+	out := a.u[a.uOff : a.uOff+len(src)]
+	a.uOff += len(src)
+	copy(out, src)
+	return out
+}
+
+func (a *arena) leaves(src []u.Leaf) []u.Leaf {
+	if src == nil {
+		return nil
+	}
+	if a.off {
+		return append([]u.Leaf(nil), src...)
+	}
+	if len(src) > len(a.l) {
+		a.l = make([]u.Leaf, 2*len(src)+16)
+	}
+	out := a.l[:len(src):len(src)]
+	copy(out, src)
+	return out
+}
+
+func (a *arena) proof(p u.Proof) u.Proof {
+	return u.Proof{Targets: a.u64s(p.Targets), Proof: a.hashes(p.Proof)}
 }
 
 func newInst(c Cfg) *Inst {
 	in := &Inst{Cfg: c}
+	in.ar.off = c.NoVerify
 	switch c.Kind {
 	case "stump":
 		in.S = &u.Stump{}
@@ -149,19 +214,26 @@ func proofStr(p u.Proof) string {
 
 // Apply applies one block (already proven by the caller) to the instance. For a partial map
 // forest the deletions are first verified with remember=true, as its callers must do.
-// Every slice handed to the library is a fresh copy.
+// Every slice handed to the library is a copy living in the instance's recycled argument buffers
+// (see arena): the caller's own slices are never exposed, and the arguments of one call are
+// overwritten by those of the next.
 func (in *Inst) Apply(adds []u.Leaf, delH []Hash, proof u.Proof) error {
-	adds = append([]u.Leaf(nil), adds...)
+	a := &in.ar
+	a.next()
 	switch {
 	case in.S != nil:
-		ah := make([]Hash, len(adds))
-		for i, a := range adds {
-			ah[i] = a.Hash
+		var ah []Hash // nil for a block without additions, as in the README's deletion example
+		if len(adds) > 0 {
+			tmp := make([]Hash, len(adds))
+			for i, l := range adds {
+				tmp[i] = l.Hash
+			}
+			ah = a.hashes(tmp)
 		}
-		_, err := in.S.Update(cloneHashes(delH), ah, cloneProof(proof))
+		_, err := in.S.Update(a.hashes(delH), ah, a.proof(proof))
 		return err
 	case in.P != nil:
-		return in.P.Modify(adds, cloneHashes(delH), cloneProof(proof))
+		return in.P.Modify(a.leaves(adds), a.hashes(delH), a.proof(proof))
 	default:
 		needVerify := !in.M.Full && len(delH) > 0 && !in.Cfg.NoVerify
 		if needVerify && in.Cfg.Direct {
@@ -173,11 +245,12 @@ func (in *Inst) Apply(adds []u.Leaf, delH []Hash, proof u.Proof) error {
 			}
 		}
 		if needVerify {
-			if err := in.M.Verify(cloneHashes(delH), cloneProof(proof), true); err != nil {
+			if err := in.M.Verify(a.hashes(delH), a.proof(proof), true); err != nil {
 				return fmt.Errorf("Verify(remember) before Modify: %w", err)
 			}
+			a.next()
 		}
-		return in.M.Modify(adds, cloneHashes(delH), cloneProof(proof))
+		return in.M.Modify(a.leaves(adds), a.hashes(delH), a.proof(proof))
 	}
 }
 
